@@ -211,6 +211,8 @@ impl Runner {
     }
 
     pub fn start(&mut self, id: BuildId, build: &Build) {
+        #[cfg(n2_verif)]
+        crate::verif::on_runner_start(id, build);
         let cmdline = build.cmdline.clone().unwrap();
         let depfile = build.depfile.clone().map(PathBuf::from);
         let rspfile = build.rspfile.clone();
@@ -253,10 +255,14 @@ impl Runner {
 
     /// Wait for a build to complete.  May block for a long time.
     pub fn wait(&mut self, mut output: impl FnMut(BuildId, Vec<u8>)) -> FinishedTask {
+        #[cfg(n2_verif)]
+        crate::verif::on_runner_wait(self.running);
         loop {
             match self.rx.recv().unwrap() {
                 Message::Output((bid, line)) => output(bid, line),
                 Message::Done(task) => {
+                    #[cfg(n2_verif)]
+                    crate::verif::on_runner_done(task.buildid, &task.result.termination);
                     self.tids.release(task.tid);
                     self.running -= 1;
                     return task;
@@ -264,6 +270,22 @@ impl Runner {
             }
         }
     }
+}
+
+/// Verification facade: the private helpers of this module, unchanged.
+#[cfg(n2_verif)]
+pub fn verif_read_depfile(path: &Path) -> anyhow::Result<Vec<String>> {
+    read_depfile(path)
+}
+
+#[cfg(n2_verif)]
+pub fn verif_extract_showincludes(output: Vec<u8>) -> (Vec<String>, Vec<u8>) {
+    extract_showincludes(output)
+}
+
+#[cfg(n2_verif)]
+pub fn verif_find_last_line(buf: &[u8]) -> &[u8] {
+    find_last_line(buf)
 }
 
 #[cfg(test)]
